@@ -168,7 +168,21 @@ where
             };
             stats.cases += 1;
             ev(json!({"ev":"call_rt","type":label,"ok":rt}));
-            // the zlink serializer produces the same text (C03 covers the bytes; here: the envelope)
+            // the envelope through zlink's own serializer, for every buffer length: either the buffer is reported
+            // as too small, or exactly the reference bytes come out (never a call that lost a flag or was cut
+            // inside one because the space ran out there)
+            let reference = text.as_bytes();
+            let mut slice_ok = true;
+            for n in 0..=reference.len() + 2 {
+                let mut buf = vec![0xAAu8; n];
+                match zlink_core::verif::to_slice(&call, &mut buf) {
+                    zlink_core::verif::ToSlice::Ok(k) => slice_ok &= n >= reference.len() && &buf[..k] == reference,
+                    zlink_core::verif::ToSlice::BufferTooSmall => slice_ok &= n < reference.len(),
+                    zlink_core::verif::ToSlice::KeyMustBeAString => slice_ok = false,
+                }
+            }
+            stats.cases += 1;
+            ev(json!({"ev":"call_slice","type":label,"oneway":ow,"more":mo,"upgrade":up,"ok":slice_ok}));
         }
         // (B) decoding: flags in any position and with any value, any member order, unknown extras
         for _ in 0..12 {
